@@ -275,3 +275,44 @@ def check_moves(ck, P, rid):
                 else:
                     ck.violated(rid, inst, call.where, "inserting at %s must first move the count - %s elements from %s to %s + 1; found memmove(&items[%s], &items[%s], %s elements)" % (itxt, itxt, itxt, itxt, dtxt, stxt, ltxt), cfg)
     ck.expect(rid, n_sites, 3, "array_truncate_first / array_add_at expansions")
+
+
+def check_cached_items(ck, P, rid):
+    """heap_insert / heap_extract keep the element array in a local (`items`).  The array may be reallocated (array_expand, array_reserve,
+    array_shrink) only BEFORE that local is loaded: afterwards the local would point to the freed block."""
+    cfg = P.config
+    n = 0
+    for f in P.all_functions():
+        if not f.file.startswith("src/"):
+            continue
+        for s0 in f.walk():
+            if s0.k != "StmtExpr" or not s0.macros or s0.macros[0] not in ("heap_insert", "heap_extract", "heap_insert_n"):
+                continue
+            body = s0.children[0]
+            cache = None
+            for k, st in enumerate(body.children):
+                for v in st.children if st.k == "DeclStmt" else []:
+                    init = X.strip(v.children[-1], casts=True) if v.k == "VarDecl" and v.children else None
+                    if init is not None and init.k == "MemberExpr" and init.name == "items" and cache is None:
+                        cache = (k, v)
+            if cache is None:
+                continue
+            n += 1
+            inst = "cached-items:%s@%s" % (s0.macros[0], f.name)
+            k0, v = cache
+            last_use = max([k for k, st in enumerate(body.children) if any(x.k == "DeclRefExpr" and x.did == v.did for x in st.walk())] or [k0])
+            bad = None
+            for k, st in enumerate(body.children):
+                if k <= k0 or k > last_use:
+                    continue
+                for x in st.walk():
+                    if x.k == "StmtExpr" and x.macros and x.macros[0] in ("array_expand", "array_reserve", "array_shrink"):
+                        bad = x
+                    if x.k == "CallExpr" and x.callee in ("mm_realloc", "realloc"):
+                        bad = x
+            if bad is not None:
+                ck.violated(rid, inst, bad.where, "the element array can be reallocated (%s) after `%s` cached its address and before the last use of that copy: when the block moves, the "
+                            "sift loop reads and writes freed memory" % (bad.macros[0] if bad.k == "StmtExpr" else bad.callee, v.name), cfg)
+            else:
+                ck.holds(rid, inst, s0.where, "no reallocation of the array between caching its address in `%s` and the last use of the copy" % v.name, cfg)
+    ck.expect(rid, n, 6, "heap operations that cache the element array")
